@@ -47,7 +47,7 @@ type Step struct {
 	// AlgForm: how the algorithm parameter is written: token (algorithm=MD5),
 	// quoted (algorithm="MD5"), absent (MD5 only: RFC 2617 default).
 	AlgForm string `json:"alg_form,omitempty"`
-	// Perturb: user | pass | realm | nonce | method | algorithm | uri | scheme
+	// Perturb: user | pass | realm | nonce | method | algorithm | uri | response | scheme
 	Perturb string `json:"perturb,omitempty"`
 	// Mode (user, realm, nonce, uri): field = only the header field is changed,
 	// resp = only the response is computed from the wrong value, both = both.
@@ -78,7 +78,7 @@ type Scenario struct {
 var probeNames = []string{
 	"method_basic", "method_digest_md5", "method_digest_sha256", "password_with_colon", "setup_track_url",
 	"perturb_user", "perturb_pass", "perturb_realm", "perturb_nonce", "perturb_method", "perturb_algorithm", "perturb_uri",
-	"perturb_scheme_not_enabled", "conn_kept_after_challenge", "conn_closed_after_wrong_credentials",
+	"perturb_scheme_not_enabled", "perturb_response", "conn_kept_after_challenge", "conn_closed_after_wrong_credentials",
 	"workload_a", "workload_b", "workload_c", "record_flow", "client_wrong_credentials_rejected",
 	"challenge_checked", "valid_accepted", "setup_base_url_form_accepted", "setup_base_url_form_rejected",
 	"uri_abs_path_form_accepted", "uri_abs_path_form_rejected", "nonce_of_other_connection", "algorithm_absent_md5",
@@ -313,7 +313,7 @@ func init() {
 		"destructive network faults (the property is about decisions, not about surviving connection loss)",
 		"Digest qop / cnonce / opaque / stale handling (not offered by the server side)",
 	}
-	f.Rule = "scenario = workload (A 30% | B 25% | C 45%) x ordered non-empty subset of {Basic, Digest-MD5, Digest-SHA-256} x user name (1..12 printable/unicode runes, no ':' '\"' '\\') x password (1..14 printable/unicode runes, 40% with ':') x stream URL (1..4 path segments incl. spaces, unicode, '@', sub-delims, raw percent escapes; 55% with a query) x 1..3 medias x play|record flow x latency x chunk mode 0..3; A: 15% with one wrong credential; B: seeded realm (0..16 runes) and nonce (hex, base64-like, printable); C: a conversation DESCRIBE|ANNOUNCE, SETUP*, PLAY|RECORD that always starts without credentials, may repeat the challenge mid-flow, authorises each step with a seeded enabled scheme (header variants: algorithm token/quoted/absent, SETUP base-URL forms, abs_path form) and ends (88%) with one single-field perturbation (8 kinds x field/response/both x 4..8 concrete mutations) at a seeded step. Non-trivial = at least one credential decision was checked (A: a request accepted after a 401 or a wrong credential refused; B: auth.Verify evaluated on a retried request; C: challenge checked and a valid or perturbed request judged); distinct = distinct canonical event log"
+	f.Rule = "scenario = workload (A 30% | B 25% | C 45%) x ordered non-empty subset of {Basic, Digest-MD5, Digest-SHA-256} x user name (1..12 printable/unicode runes, no ':' '\"' '\\') x password (1..14 printable/unicode runes, 40% with ':') x stream URL (1..4 path segments incl. spaces, unicode, '@', sub-delims, raw percent escapes; 55% with a query; '@' followed by '%' only as stated in the assumptions) x 1..3 medias x play|record flow x latency x chunk mode 0..3; A: 15% with one wrong credential; B: seeded realm (0..16 runes) and nonce (hex, base64-like, printable); C: a conversation DESCRIBE|ANNOUNCE, SETUP*, PLAY|RECORD that always starts without credentials, may repeat the challenge mid-flow, authorises each step with a seeded enabled scheme (header variants: algorithm token/quoted/absent, SETUP base-URL forms, abs_path form) and ends (88%) with one single-field perturbation (9 kinds: user, password, realm, nonce, method, algorithm, uri, response digest, scheme not enabled; x field-only / response-only / both x 4..8 concrete mutations incl. proper-prefix URIs and a nonce issued on another connection) at a seeded step. Non-trivial = at least one credential decision was checked (A: a request accepted after a 401 or a wrong credential refused; B: auth.Verify evaluated on a retried request; C: challenge checked and a valid or perturbed request judged); distinct = distinct canonical event log"
 	f.Assumptions = []string{
 		"user names, realms and nonces never contain '\"' or '\\' (the header grammar of pkg/headers has no quoted-pair escaping; the statement excludes '\"' for user names only)",
 		"acceptance of the two documented SETUP base-URL forms (stream URL with / without trailing slash as digest uri) and of the RFC 2617 abs_path form is not asserted: they are sent as otherwise valid requests and either outcome is accepted (probes setup_base_url_form_*, uri_abs_path_form_*); they are never counted as URI perturbations",
@@ -322,6 +322,7 @@ func init() {
 		"the challenge must offer exactly the enabled methods: Basic iff enabled, a Digest challenge with algorithm MD5 (or none) iff Digest-MD5 is enabled, with algorithm SHA-256 iff Digest-SHA-256 is enabled; parameter order and extra parameters are not constrained",
 		"a user name perturbed to the empty string and requests with a syntactically broken Authorization header are not generated (the statement does not say whether they count as 'no credentials' or 'wrong credentials')",
 		"status codes of accepted requests must be 200 in the scripted conversation (a well-formed play / record conversation); any other non-401 status is reported under its own class c10/flow as a harness or library defect unrelated to the decision itself",
+		"stream URLs in which a '@' is followed by a '%' (base.ParseURL rewrites such URLs when they carry no credentials, so the server serves another path than the one requested) are generated only for a recording real client with a Digest method enabled (workloads A/B, 4% of those), where the only consequence is the authentication decision; everywhere else they would end in 404 / 'media not found' whatever the credentials and are not generated",
 		"only methods that reach the application's handler are authorised (DESCRIBE, ANNOUNCE, SETUP, PLAY, RECORD); OPTIONS, TEARDOWN, GET_PARAMETER are answered by the library without consulting the application",
 	}
 }
